@@ -275,6 +275,9 @@ func c14JudgeResponse(c c14Case, with, without wire.Response) (string, string) {
 	// (behind the reverse proxy a response of undeclared length has its header flushed by the
 	// proxy before the first body byte: the status is already sent when the excess shows)
 	streamedByProxy := strings.HasPrefix(c.Position, "proxy-") && !c.Declare
+	if strings.HasPrefix(c.Position, "proxy-") && first > 32*1024 {
+		first = 32 * 1024 // the proxy hands the body on in pieces of its 32 KiB copy buffer
+	}
 	if wantBody && first > c.L && c.Flush != "first" && !streamedByProxy && with.Status != 413 {
 		return "C14/over-limit/not-413-although-nothing-was-sent", fmt.Sprintf("the first write alone (%d bytes) exceeds the limit %d before anything was sent, but the client got status %d", first, c.L, with.Status)
 	}
@@ -440,7 +443,14 @@ func TestVerifC14(t *testing.T) {
 	}
 	// mounting (a): the program is the backend behind the real balancer and ReverseProxy
 	seqNo := 0
+	// small limits exhaustively; two large ones around the proxy's 32 KiB copy buffer, where a
+	// body crosses buffer boundaries before it crosses the limit
+	var proxyLs []int
 	for L := 1; L <= maxL; L++ {
+		proxyLs = append(proxyLs, L)
+	}
+	proxyLs = append(proxyLs, 32*1024, 64*1024+1)
+	for _, L := range proxyLs {
 		idx++
 		if idx%shards != shard {
 			continue
